@@ -2,7 +2,7 @@
    Only ExtrOcamlBasic is used: bool, option, unit, list, prod, sumbool, sumor and andb/orb are
    mapped to their OCaml counterparts; Z, positive, N, nat stay Coq datatypes. *)
 From Coq Require Import ZArith List.
-From K Require Import Lib.Types Model.Machine Model.Bus Model.Cost Model.Addressing Model.Exec Model.Periph Model.Ops Spec.Price Spec.MemMap Spec.ISA Spec.Domains Spec.PortSpec.
+From K Require Import Lib.Types Model.Machine Model.Bus Model.Cost Model.Addressing Model.Exec Model.Periph Model.Ops Spec.Price Spec.MemMap Spec.ISA Spec.Domains Spec.PortSpec Spec.TimerSpec.
 Require Extraction.
 Require Import ExtrOcamlBasic.
 Extraction Language OCaml.
@@ -16,5 +16,6 @@ Extraction "model.ml"
   Domains.dom_c07a Domains.dom_c07b Domains.dom_c08 Domains.dom_c20 Domains.known_shal Domains.known_stc_predec
   Domains.is_exc ISA.reg32 Domains.dom_entry Domains.ref_entry Domains.ref_step
   PortSpec.pstep PortSpec.p_read PortSpec.p_out PortSpec.port0
+  TimerSpec.states_ref TimerSpec.write_tcr_ref TimerSpec.side_ok TimerSpec.mkTmr
   Price.price_ref Price.settings_of_area Price.on_chip_ram Price.area_of Price.dom_c19
   Z.of_nat Z.to_nat Z.add Z.mul Z.opp Z.div Z.modulo Z.eqb Z.ltb Z.leb Z.pow.
